@@ -8,7 +8,7 @@ ALL = ["C%02d" % i for i in range(1, 21)]
 # id -> (technique, level text, level note, design ref)
 CHECKS = {
  "C01": ("reference-model runtime monitor (independent RFC 8907 layout table vs library bytes, both directions)",
-         "Every generated value is encoded by the library and by an independent table-driven RFC 8907 codec and the bytes are compared; reference bytes are decoded by the library and compared field by field. Held on the boundary sweeps and seeded random values listed in the evidence; not a proof.",
+         "Every generated value is encoded by the library and by an independent table-driven RFC 8907 codec and the bytes are compared; reference bytes are decoded by the library and compared field by field; the slice returned for a packet is held across the next encode and re-compared. Held on the boundary sweeps and seeded random values listed in the evidence; not a proof.",
          "trusts the layout table in h/rfc8907 (transcribed from the RFC) and crypto/md5", "3/C01"),
  "C02": ("round-trip and refusal runtime monitor over boundary-crossing values and a hostile decode-first corpus",
          "Oracle observes MarshalBinary/UnmarshalBinary of the real code on values on both sides of every wire-width boundary and on malformed bytes; a successful encode must be representable, valid and lossless.",
@@ -17,13 +17,13 @@ CHECKS = {
          "Each hostile input is decoded from three memory placements by every decoder and by Request.Fields; panics, faults, capacity-dependent results, over-cap bodies, invalid accepted values and allocation above 16*len+64KiB are violations.",
          "reads before the start of a slice are impossible in safe Go; allocation measured with runtime.ReadMemStats in a single-goroutine worker", "3/C04"),
  "C03": ("reference-model runtime monitor at the socket (raw server/client bytes vs header||(body XOR independent MD5 pad), cleartext seen by handlers and returned by Client.Send)",
-         "The real server loop and Client.Send run over a scripted in-memory connection; every written byte and every delivered cleartext is compared with the reference pad for secrets/sessions/versions/sequence numbers/body lengths listed in the evidence.",
+         "The real server loop and Client.Send run over a scripted in-memory connection; every written byte and every delivered cleartext is compared with the reference pad for secrets/sessions/versions/sequence numbers/body lengths listed in the evidence; also the server's own bad-secret error packets and whatever is written after an injected write fault.",
          "trusts crypto/md5 and h/rfc8907.Pad; Client driven through the verif-only constructor NewClientFromConn", "3/C03"),
  "C05": ("scripted-delivery runtime monitor (generated TCP segmentation schedules against the real reader; wrapping Handler + connection event log)",
-         "Streams of packets are cut by 17 segmentation schedules and fed to the real server loop / Client.Send; the handler must see exactly the packets sent; truncation, stall and oversize-header scenarios are judged on the Read/Close event log and a heap meter.",
+         "Streams of packets are cut by 17 segmentation schedules and fed to the real server loop / Client.Send; the handler must see exactly the packets sent and the bodies it was handed (kept by reference) must stay intact while later packets are read; truncation, stall, pause-inside-packet and oversize-header scenarios are judged on the Read/Close event log (virtual time) and a heap meter.",
          "simnet delivers at most one chunk per Read; oversize heap bound 1 MiB measured with ReadMemStats", "3/C05"),
  "C06": ("raw-header runtime monitor in lock-step (reply bytes re-framed independently and compared octet by octet with the mirrored header and reference pad)",
-         "All 196608 request headers (3 types x 2 minor x 256 flag octets x 128 odd sequence numbers) and every reply kind/size are exchanged with the real server loop; each reply's raw header, length field and obfuscation are checked; full 1..255 walks of one session.",
+         "All 196608 request headers (3 types x 2 minor x 256 flag octets x 128 odd sequence numbers) and every reply kind/size are exchanged with the real server loop; each reply's raw header, length field and obfuscation are checked; replies through Response.Write, fallback replies after an unsendable first reply, full 1..255 walks, and every reply of the reference server's handler paths go through the same oracle.",
          "scope: Reply/ReplyWithContext; a RESTART reply to request 255 is unjudged (statement ambiguous)", "3/C06"),
  "C08": ("model-based runtime monitor over connection histories (executable session/sequence model vs handler identity and close events of the real loop)",
          "All histories of length <= 4 over {1,2,3,5,253,255}x{A,B} plus seeded random longer histories are played in lock-step; every dispatch (which handler: initial or which continuation) and every rejection (no handler, closed) must match the model.",
